@@ -42,13 +42,24 @@ func (c07) build(src *gen.Source) *Case {
 	o := gen.FullOpts()
 	o.MaxDepth = 1 + src.Intn(3)
 	c := &Case{Kind: "stream", Reader: gosim.ReaderPlan{Kind: "scanner", FaultAt: -1}}
-	if src.Chance(1, 3) {
+	switch src.Intn(9) {
+	case 0, 1:
 		c.Reader.Unread = "multi"
+	case 2:
+		c.Reader.Kind = "strings.Reader"
+	case 3:
+		c.Reader.Kind = "bytes.Reader"
+	case 4:
+		c.Reader.Kind = "bytes.Buffer"
+	case 5:
+		c.Reader.Kind = "bufio.Reader"
 	}
+	nlAliases := false
 	if src.Chance(1, 4) {
 		// a benign alias table (values keep every command well-formed): substitution at command position,
 		// trailing-blank aliases that make the next word eligible, a value spanning two lines
 		c.Aliases = [][2]string{{"cat", "cat -n "}, {"grep", "grep -q"}, {"ls", "ls -l "}, {"x1", "x1 "}, {"true", "true"}, {"_f", "_f a"}}
+		nlAliases = src.Chance(1, 2)
 	}
 	g := gen.NewG(src, o)
 	n := 1 + src.Intn(8)
@@ -58,6 +69,12 @@ func (c07) build(src *gen.Source) *Case {
 		for _, h := range it.HDs {
 			c.Heredocs = append(c.Heredocs, HereDoc{Op: h.Op, Delim: h.Delim, Quoted: h.Quoted, Body: h.Body})
 		}
+	}
+	if nlAliases && len(c.Heredocs) == 0 {
+		// values ending in a newline: the rest of the line becomes a second command of the same call (some lines
+		// become invalid: nothing is checked from there on). Not combined with here-documents: a newline inside
+		// alias text starts the body early, which moves the command boundaries the oracle relies on.
+		c.Aliases = append(c.Aliases, [2]string{"echo", "echo\n"}, [2]string{"b", "b \n"}, [2]string{"cmd", "cmd x\n "})
 	}
 	c.GenTape = src.Rec
 	return c
@@ -86,6 +103,7 @@ func (c07) Judge(c *Case, obs []*Obs) []Finding {
 	}
 	// expected per item: parse it alone
 	alone := make([]string, len(c.CmdEnds))
+	aloneErr := make([]bool, len(c.CmdEnds))
 	start := 0
 	for i, end := range c.CmdEnds {
 		text := c.Src[start:end]
@@ -98,7 +116,8 @@ func (c07) Judge(c *Case, obs []*Obs) []Finding {
 		}
 		cmds, comments, err := parser.ParseCommands(env, "sim", text)
 		alone[i] = fmt.Sprintf("cmds=%s\ncomments=%s\n%s", Dump(cmds, 0), Dump(comments, 0), DumpErr(err))
-		if err != nil {
+		aloneErr[i] = err != nil
+		if err != nil && len(c.Aliases) == 0 {
 			add(Finding{Class: "item-rejected", Detail: fmt.Sprintf("generated complete command %d is rejected on its own: %v; text %q", i, err, shortStr(text, 200))})
 		}
 		start = end
@@ -111,7 +130,14 @@ func (c07) Judge(c *Case, obs []*Obs) []Finding {
 		if live == nil {
 			continue
 		}
+		stoppedByAlias := false
 		for i := range live.Errs {
+			if i < len(aloneErr) && aloneErr[i] {
+				// an alias made this line invalid: it is no complete command any more (an unterminated construct
+				// reaches into the following lines), so nothing from here on is checked
+				stoppedByAlias = true
+				break
+			}
 			if live.Errs[i] != nil {
 				add(Finding{Class: "call-error", Obs: []int{oi}, Detail: fmt.Sprintf("call %d returned error %v", i, live.Errs[i])})
 				break
@@ -128,6 +154,9 @@ func (c07) Judge(c *Case, obs []*Obs) []Finding {
 				add(Finding{Class: "result-differs-from-separate-parse", Obs: []int{oi}, Detail: fmt.Sprintf("call %d: %s", i, firstDiff(alone[i], o.Parts[i]))})
 				break
 			}
+		}
+		if stoppedByAlias {
+			continue
 		}
 		if len(live.Errs) < len(c.CmdEnds) && !seen["call-error"] && !seen["wrong-consumption"] {
 			add(Finding{Class: "missing-call", Obs: []int{oi}, Detail: fmt.Sprintf("reader exhausted after %d calls for %d complete commands (offsets %v, expected %v)", len(live.Errs), len(c.CmdEnds), o.PosAtReturn, c.CmdEnds)})
